@@ -70,6 +70,9 @@ Ltac gen_unfold :=
      ElementID_Type ElementID_Ref ElementID_Version ElementID_ObjectID ElementID_FeatureID
      ObjectID_Type ObjectID_Ref ObjectID_Version
      FeatureID_NodeID FeatureID_WayID FeatureID_RelationID
+     Node_ObjectID Node_FeatureID Node_ElementID Way_ObjectID Way_FeatureID Way_ElementID
+     Relation_ObjectID Relation_FeatureID Relation_ElementID
+     Changeset_ObjectID Note_ObjectID User_ObjectID
      ElementID_NodeID ElementID_WayID ElementID_RelationID
      ctor_spec ver_spec ref_spec version_spec feature_spec
      feature_type_spec element_type_spec object_type_spec conv_spec].
@@ -168,6 +171,33 @@ Proof. gen_sem. Qed.
 Lemma ElementID_WayID_sem x : ElementID_WayID x = conv_spec c_wayMask x.
 Proof. gen_sem. Qed.
 Lemma ElementID_RelationID_sem x : ElementID_RelationID x = conv_spec c_relationMask x.
+Proof. gen_sem. Qed.
+
+(* ---- struct-level methods: Node.ElementID() etc. are the per-id constructors on the
+        fields ID and Version ---- *)
+Lemma Node_ObjectID_sem r v : Node_ObjectID r v = ver_spec (ctor_spec c_nodeMask r) v.
+Proof. gen_sem. Qed.
+Lemma Node_ElementID_sem r v : Node_ElementID r v = ver_spec (ctor_spec c_nodeMask r) v.
+Proof. gen_sem. Qed.
+Lemma Node_FeatureID_sem r : Node_FeatureID r = ctor_spec c_nodeMask r.
+Proof. gen_sem. Qed.
+Lemma Way_ObjectID_sem r v : Way_ObjectID r v = ver_spec (ctor_spec c_wayMask r) v.
+Proof. gen_sem. Qed.
+Lemma Way_ElementID_sem r v : Way_ElementID r v = ver_spec (ctor_spec c_wayMask r) v.
+Proof. gen_sem. Qed.
+Lemma Way_FeatureID_sem r : Way_FeatureID r = ctor_spec c_wayMask r.
+Proof. gen_sem. Qed.
+Lemma Relation_ObjectID_sem r v : Relation_ObjectID r v = ver_spec (ctor_spec c_relationMask r) v.
+Proof. gen_sem. Qed.
+Lemma Relation_ElementID_sem r v : Relation_ElementID r v = ver_spec (ctor_spec c_relationMask r) v.
+Proof. gen_sem. Qed.
+Lemma Relation_FeatureID_sem r : Relation_FeatureID r = ctor_spec c_relationMask r.
+Proof. gen_sem. Qed.
+Lemma Changeset_ObjectID_sem r : Changeset_ObjectID r = ctor_spec c_changesetMask r.
+Proof. gen_sem. Qed.
+Lemma Note_ObjectID_sem r : Note_ObjectID r = ctor_spec c_noteMask r.
+Proof. gen_sem. Qed.
+Lemma User_ObjectID_sem r : User_ObjectID r = ctor_spec c_userMask r.
 Proof. gen_sem. Qed.
 
 (* the three type constants and the masks are pairwise different (finite check on the data) *)
